@@ -247,6 +247,12 @@ static void *client_thread(void *arg) {
                          vm_error_string(result));
             }
             vmd_msg_send_error(fd, errbuf);
+        } else {
+            /* Like standalone execution: main's int result is the exit status */
+            NanoValue main_result = vm_get_result(&vm);
+            if (main_result.tag == TAG_INT) {
+                exit_code = (int32_t)main_result.as.i64;
+            }
         }
 
         vmd_msg_send_exit(fd, exit_code);
